@@ -5,6 +5,7 @@ import (
 	"go/token"
 	"go/types"
 	"sort"
+	"strings"
 
 	"golang.org/x/tools/go/ssa"
 )
@@ -417,6 +418,67 @@ func importedAsGiven(w *World, r *Report, rule string) {
 					}
 					r.Check(ok && len(alts) > 0, rule, fmt.Sprintf("%s import: argument #%d of %s is %s", m, ai, funcName(h), what), w.Pos(s.Instr.Pos()), fmt.Sprintf("%d alternative(s), each the field as given", len(alts)), "InitGenesis stores something else than the value the genesis document gives for "+what+" ("+bad+"): an exported state is changed by its import")
 				}
+			}
+		}
+	}
+}
+
+// initOrderRule (C12.initorder): a chain must be able to start from its own export. The crisis module asserts every
+// registered invariant while it is initialised from genesis; an invariant of a custom module compares that module's
+// state with balances the bank has already restored - so every custom module that registers invariants is initialised
+// BEFORE crisis in the application's genesis order (and after the bank and auth modules its initialisation reads).
+func initOrderRule(w *World, r *Report, rule string) {
+	cg := w.CG()
+	ro := w.Roles()
+	var site *Site
+	for _, fn := range w.ProdFuncs() {
+		for _, s := range cg.Sites[fn] {
+			if s.Method == "SetOrderInitGenesis" || strings.HasSuffix(s.CalleeName(), "Manager.SetOrderInitGenesis") {
+				site = s
+			}
+		}
+	}
+	if site == nil {
+		r.Unk(rule, "the application's genesis initialisation order", "", "no call of SetOrderInitGenesis found")
+		return
+	}
+	pos := w.Pos(site.Instr.Pos())
+	args := site.Common().Args
+	var names []string
+	if len(args) > 0 {
+		for _, el := range varargElems(args[len(args)-1]) {
+			if s, ok := EvalString(el); ok {
+				names = append(names, s)
+			} else {
+				names = append(names, "?")
+			}
+		}
+	}
+	idx := map[string]int{}
+	for i, n := range names {
+		idx[n] = i
+	}
+	crisis, okC := idx["crisis"]
+	if !okC || len(names) < 5 {
+		r.Unk(rule, "the application's genesis initialisation order", pos, fmt.Sprintf("the module list could not be read (%d names, crisis present: %v)", len(names), okC))
+		return
+	}
+	for _, m := range customModules {
+		// the module actually registers an invariant route
+		registers := false
+		for _, f := range ro.INV[m] {
+			if len(cg.targetsBelow(f, func(x *Site) bool { return x.Method == "RegisterRoute" }, map[*ssa.Function]bool{})) > 0 {
+				registers = true
+			}
+		}
+		if !registers {
+			continue
+		}
+		i, ok := idx[m]
+		r.Check(ok && i < crisis, rule, m+" is initialised from genesis before crisis asserts its invariants", pos, fmt.Sprintf("position %d of %d, crisis at %d", i, len(names), crisis), "the module registers invariants but its genesis state is loaded after crisis has asserted them: an exported state whose invariant involves already restored balances (a distributor main account that holds coins) makes InitChain panic - the chain cannot start from its own export")
+		for _, dep := range []string{"auth", "bank"} {
+			if d, okD := idx[dep]; okD {
+				r.Check(ok && d < i, rule, m+" is initialised after "+dep, pos, "order respected", "the module's genesis initialisation reads "+dep+" state that is not restored yet")
 			}
 		}
 	}
